@@ -3,7 +3,7 @@ from __future__ import annotations
 
 import ast
 
-from sa.loader import recv, norm, norm1, walk_shallow, own_nodes, call_name, is_super_call
+from sa.loader import AnalysisError, recv, norm, norm1, walk_shallow, own_nodes, call_name, is_super_call
 from sa.absval import Interp
 from sa.dataflow import node_defs
 from sa.rulekit import (nodes_where, node_calls, node_roots, nodes_calling, return_nodes, own,
@@ -71,114 +71,445 @@ def run(ck):
                   "(complete on the equality pattern); Xor is the parity of the true inputs (all "
                   "truthiness vectors of 0..4 inputs)", 'key-equality / truthiness domain', 3)
 
-    sl = SimLoop(ck, R1)
-    g, fi = sl.cfg, sl.fi
-    W = sl.W
+    with ck.section('R01.1'):
+        sl = SimLoop(ck, R1)
+        g, fi = sl.cfg, sl.fi
+        W = sl.W
 
-    # ------------------------------------------------------------------ R01.1
-    wdefs = [n for n in g.nodes if n.kind == 'stmt' and W in node_defs(n) and n.id not in sl.loop_nodes
-             and g.dominates(n, sl.head)]
-    ok = len(wdefs) == 1 and isinstance(wdefs[0].ast, ast.Assign)
-    if ok:
-        v = wdefs[0].ast.value
-        ok = isinstance(v, ast.Call) and call_name(v) in ('set', 'list') and len(v.args) == 1 and \
-            isinstance(v.args[0], ast.Call) and call_name(v.args[0]) == 'getblocks' and \
-            [norm(a) for a in v.args[0].args] == ['block.CBlock']
-    ck.ob(R1, f"{SIMULATE} :: initial {W}", ok,
-          f"{W} = set(self.getblocks(block.CBlock)): everything is evaluated on the first run"
-          if ok else f"the initial work-list is not the set of all CBlocks", fi,
-          wdefs[0].ast if wdefs else fi.node)
+        # ------------------------------------------------------------------ R01.1
+        wdefs = [n for n in g.nodes if n.kind == 'stmt' and W in node_defs(n) and n.id not in sl.loop_nodes
+                 and g.dominates(n, sl.head)]
+        ok = len(wdefs) == 1 and isinstance(wdefs[0].ast, ast.Assign)
+        if ok:
+            v = wdefs[0].ast.value
+            ok = isinstance(v, ast.Call) and call_name(v) in ('set', 'list') and len(v.args) == 1 and \
+                isinstance(v.args[0], ast.Call) and call_name(v.args[0]) == 'getblocks' and \
+                [norm(a) for a in v.args[0].args] == ['block.CBlock']
+        ck.ob(R1, f"{SIMULATE} :: initial {W}", ok,
+              f"{W} = set(self.getblocks(block.CBlock)): everything is evaluated on the first run"
+              if ok else f"the initial work-list is not the set of all CBlocks", fi,
+              wdefs[0].ast if wdefs else fi.node)
 
-    # ------------------------------------------------------------------ R01.2
-    for gn in sl.get_nodes:
-        a = gn.ast
-        var = a.targets[0].id if isinstance(a, ast.Assign) and isinstance(a.targets[0], ast.Name) else None
-        if var is None:
-            ck.ob(R2, f"{SIMULATE} :: {norm1(a)}", False,
-                  "a queue item is removed without being bound (the notification is lost)", fi, a)
-            continue
-        consumers = sl.unions_for(var)
-        redefs = [n for n in g.nodes if n is not gn and var in node_defs(n)]
-        p = g.path_avoiding(gn, [sl.head, g.exit] + redefs + [gn], avoid=consumers,
-                            start_successors_only=True)
-        ck.ob(R2, f"{SIMULATE} :: {norm1(a)}", p is None and bool(consumers),
-              f"{W} receives {var}.oconnections before {var} is dropped" if p is None and consumers
-              else f"the block taken from the queue by `{norm1(a)}` can be dropped without "
-              f"scheduling the blocks connected to its output", fi, a, witness=path_witness(g, p))
-    ck.need(R2, len(sl.get_nodes) >= 2, "_simulate: fewer queue removals than confirmed by hand")
-    # the permitted discard in _init_sblocks_sync_2 precedes _simulate
-    rf = prog.func('simulator:Circuit.run_forever')
-    grf = ck.cfg(rf.fid, 'M0')
-    s2 = nodes_calling(grf, '_init_sblocks_sync_2')
-    sim = nodes_calling(grf, '_simulate')
-    ok = len(s2) == 1 and len(sim) == 1 and grf.dominates(s2[0], sim[0])
-    ck.ob(R2, f"{rf.fid} :: drain before simulate", ok,
-          "the queue is drained (discarding) only before _simulate starts with a complete "
-          "work-list" if ok else "the discarding drain does not strictly precede _simulate", rf,
-          sim[0].ast if sim else rf.node)
-    # no other consumer of the queue in the package
-    n_other = 0
-    for f2 in prog.pkg_funcs():
-        if f2.fid in (SIMULATE, 'simulator:Circuit._init_sblocks_sync_2'):
-            continue
-        for c in [x for x in own_nodes(f2.node) if isinstance(x, ast.Call)]:
-            if call_name(c) in ('get', 'get_nowait') and 'sblock_queue' in norm(c.func):
-                n_other += 1
-                ck.ob(R2, f"{f2.fid} :: {norm(c)}", False,
-                      "a third party removes notifications from the simulator's queue", f2, c)
-    ck.ob(R2, "other consumers of sblock_queue", n_other == 0,
-          f"{n_other} other consumer(s)", None, 'edzed/simulator.py:1')
+    with ck.section('R01.2'):
+        # ------------------------------------------------------------------ R01.2
+        for gn in sl.get_nodes:
+            a = gn.ast
+            var = a.targets[0].id if isinstance(a, ast.Assign) and isinstance(a.targets[0], ast.Name) else None
+            if var is None and sl._union_of(gn) is not None and sl._union_of(gn)[0] == W and \
+                    any(call_name(c) in ('get', 'get_nowait') and norm(c) == sl._union_of(gn)[1].replace('await ', '')
+                        for c in node_calls(gn)):
+                ck.ob(R2, f"{SIMULATE} :: {norm1(a)}", True,
+                      f"{W} receives the oconnections of the dequeued block in the same statement", fi, a)
+                continue
+            if var is None:
+                ck.ob(R2, f"{SIMULATE} :: {norm1(a)}", False,
+                      "a queue item is removed without being bound (the notification is lost)", fi, a)
+                continue
+            consumers = sl.unions_for(var)
+            redefs = [n for n in g.nodes if n is not gn and var in node_defs(n)]
+            p = g.path_avoiding(gn, [sl.head, g.exit] + redefs + [gn], avoid=consumers,
+                                start_successors_only=True)
+            ck.ob(R2, f"{SIMULATE} :: {norm1(a)}", p is None and bool(consumers),
+                  f"{W} receives {var}.oconnections before {var} is dropped" if p is None and consumers
+                  else f"the block taken from the queue by `{norm1(a)}` can be dropped without "
+                  f"scheduling the blocks connected to its output", fi, a, witness=path_witness(g, p))
+        ck.need(R2, len(sl.get_nodes) >= 2, "_simulate: fewer queue removals than confirmed by hand")
+        # the permitted discard in _init_sblocks_sync_2 precedes _simulate
+        rf = prog.func('simulator:Circuit.run_forever')
+        grf = ck.cfg(rf.fid, 'M0')
+        s2 = nodes_calling(grf, '_init_sblocks_sync_2')
+        sim = nodes_calling(grf, '_simulate')
+        ok = len(s2) == 1 and len(sim) == 1 and grf.dominates(s2[0], sim[0])
+        ck.ob(R2, f"{rf.fid} :: drain before simulate", ok,
+              "the queue is drained (discarding) only before _simulate starts with a complete "
+              "work-list" if ok else "the discarding drain does not strictly precede _simulate", rf,
+              sim[0].ast if sim else rf.node)
+        # no other consumer of the queue in the package
+        n_other = 0
+        for f2 in prog.pkg_funcs():
+            if f2.fid in (SIMULATE, 'simulator:Circuit._init_sblocks_sync_2'):
+                continue
+            for c in [x for x in own_nodes(f2.node) if isinstance(x, ast.Call)]:
+                if call_name(c) in ('get', 'get_nowait') and 'sblock_queue' in norm(c.func):
+                    n_other += 1
+                    ck.ob(R2, f"{f2.fid} :: {norm(c)}", False,
+                          "a third party removes notifications from the simulator's queue", f2, c)
+        ck.ob(R2, "other consumers of sblock_queue", n_other == 0,
+              f"{n_other} other consumer(s)", None, 'edzed/simulator.py:1')
 
-    # ------------------------------------------------------------------ R01.3
-    removals = nodes_where(g, lambda n: any(
-        isinstance(c.func, ast.Attribute) and recv(c) == W and
-        c.func.attr in ('pop', 'discard', 'remove') for c in node_calls(n)) or
-        (isinstance(n.ast, ast.AugAssign) and isinstance(n.ast.op, ast.Sub)
-         and norm(n.ast.target) == W))
-    for r in removals:
-        p = g.path_avoiding(r, [sl.head, g.exit], avoid=[sl.eval], start_successors_only=True)
-        # the removed element must be the evaluated one
-        c = [c for c in node_calls(r) if isinstance(c.func, ast.Attribute) and recv(c) == W]
-        same = True
-        if c and c[0].func.attr == 'pop':
-            same = isinstance(r.ast, ast.Assign) and norm(r.ast.targets[0]) == sl.x
-        elif c:
-            same = [norm(a) for a in c[0].args] == [sl.x]
-        ck.ob(R3, f"{SIMULATE} :: {norm1(r.ast)}", p is None and same,
-              f"the removed block `{sl.x}` reaches eval_block() on every path" if p is None and same
-              else "a block can be removed from the work-list without being evaluated", fi, r.ast,
-              witness=path_witness(g, p))
-    ck.need(R3, removals, "_simulate: no removal from the work-list recognised")
-    # evaluated => it was removed (otherwise the loop never terminates; also a consistency check)
-    p = g.path_avoiding(sl.head, [sl.eval], avoid=removals)
-    ck.ob(R3, f"{SIMULATE} :: evaluated => removed", p is None,
-          "every evaluation follows a removal in the same iteration" if p is None else
-          "eval_block() is reached without removing the block from the work-list", fi, sl.eval.ast,
-          witness=path_witness(g, p))
+    with ck.section('R01.3'):
+        # ------------------------------------------------------------------ R01.3
+        from rules.simloop import removed_implies_evaluated
+        removed_implies_evaluated(ck, R3, sl)
 
-    # ------------------------------------------------------------------ R01.4
-    ck.need(R4, sl.result is not None, "_simulate: the eval_block() result is not bound to a local")
-    sched = sl.unions_for(sl.x)
-    falsy = [n for n in g.nodes if n.kind == 'branch' and g.has_guard(n, sl.result, False)
-             and not g.has_guard(n.test, sl.result, False)]
-    p = g.path_avoiding(sl.eval, [sl.head, g.exit], avoid=sched + falsy, start_successors_only=True)
-    # exceptional edge of eval (M0 has none); the union must use the same block
-    ck.ob(R4, f"{SIMULATE} :: changed => {W} |= {sl.x}.oconnections", p is None and bool(sched),
-          "a truthy result always schedules the successors of the evaluated block"
-          if p is None and sched else
-          "after a changed output the blocks connected to it are not (always) scheduled", fi,
-          sl.eval.ast, witness=path_witness(g, p))
+    with ck.section('R01.4'):
+        # ------------------------------------------------------------------ R01.4
+        for e, x_, res_ in sl.sites:
+            ck.need(R4, res_ is not None, "_simulate: the eval_block() result is not bound to a local")
+            sched = sl.unions_for(x_)
+            falsy = [n for n in g.nodes if n.kind == 'branch' and g.has_guard(n, res_, False)
+                     and not g.has_guard(n.test, res_, False)]
+            p = g.path_avoiding(e, [sl.head, g.exit], avoid=sched + falsy, start_successors_only=True)
+            # exceptional edge of eval (M0 has none); the union must use the same block
+            ck.ob(R4, f"{SIMULATE} :: changed => {W} |= {x_}.oconnections" +
+                  ('' if len(sl.sites) == 1 else f" ({norm1(e.ast)})"), p is None and bool(sched),
+                  "a truthy result always schedules the successors of the evaluated block"
+                  if p is None and sched else
+                  "after a changed output the blocks connected to it are not (always) scheduled", fi,
+                  e.ast, witness=path_witness(g, p))
 
-    # ------------------------------------------------------------------ R01.5
-    idle = sl.idle_get()
-    ok = len(idle) == 1 and len(sl.await_nodes) == 1 and sl.idle_facts(idle[0])
-    ck.ob(R5, f"{SIMULATE} :: idle point", ok,
-          "the simulator yields only in `await queue.get()` with empty work-list and empty queue"
-          if ok else "the simulator can yield (be observed idle) with pending evaluations", fi,
-          idle[0].ast if idle else fi.node)
+    with ck.section('R01.5'):
+        # ------------------------------------------------------------------ R01.5
+        idle = sl.idle_get()
+        ok = len(idle) == 1 and len(sl.await_nodes) == 1 and sl.idle_facts(idle[0])
+        ck.ob(R5, f"{SIMULATE} :: idle point", ok,
+              "the simulator yields only in `await queue.get()` with empty work-list and empty queue"
+              if ok else "the simulator can yield (be observed idle) with pending evaluations", fi,
+              idle[0].ast if idle else fi.node)
 
-    # ------------------------------------------------------------------ R01.6
-    so = prog.func('block:SBlock.set_output')
+    with ck.section('R01.6'):
+        # ------------------------------------------------------------------ R01.6
+        so = prog.func('block:SBlock.set_output')
+        from rules.shared import set_output_run, set_output_helpers
+        run_ = set_output_run(ck)
+        if run_['applicable']:
+            bad_ = run_['bad']
+            ck.ob(R6, f"{so.fid} :: abstract run :: a change is stored and queued", not bad_['changes'],
+                  f"on all {run_['cases']} cases a value that compares unequal to the previous output is "
+                  "stored and the block is queued for the simulator exactly once" if not bad_['changes']
+                  else '; '.join(bad_['changes'][:3]), so, so.node)
+            ck.ob(R6, f"{so.fid} :: abstract run :: queued before any delivery", not bad_['queued first'],
+                  "the write and the enqueue precede the first event (also when that delivery raises)"
+                  if not bad_['queued first'] else '; '.join(bad_['queued first'][:3]), so, so.node)
+            ck.ob(R6, f"{so.fid} :: abstract run :: UNDEF refused", not bad_['undef'],
+                  "UNDEF is refused as an output value" if not bad_['undef'] else '; '.join(bad_['undef']),
+                  so, so.node)
+            if not (bad_['changes'] or bad_['queued first'] or bad_['undef']):
+                try:
+                    _set_output_shape(ck, R6, so)
+                except AnalysisError as err_:
+                    ck.note(f"shape rules for set_output not applicable to this layout ({err_.reason}); "
+                            "decided by the abstract run")
+        else:
+            ck.note(f"abstract run of set_output not applicable: {run_['why']}")
+            _set_output_shape(ck, R6, so)
+        helper_writers = {f_.fid: 'private helper of SBlock called by set_output only'
+                          for f_ in set_output_helpers(ck)}
+        own(ck, R6, '_output', {
+            'block:Block.__init__': 'initial UNDEF', 'block:CBlock.eval_block': 'combinational result',
+            so.fid: 'the setter of sequential blocks', 'block:Const.__init__': 'Const is not a Block',
+            **helper_writers})
+
+    with ck.section('R01.7'):
+        # ------------------------------------------------------------------ R01.7
+        eb = prog.func('block:CBlock.eval_block')
+        ge = ck.cfg(eb.fid, 'M0')
+        ws = nodes_writing_attr(ge, '_output')
+        ck.need(R7, len(ws) == 1, "CBlock.eval_block: expected exactly one write of _output")
+        v = written_value(ws[0], '_output')
+        rd = ck.rdefs(eb.fid, 'M0')
+        vals = rd.value_exprs(ws[0], v.id) if isinstance(v, ast.Name) else [v]
+        ok = bool(vals) and all(not isinstance(x, str) and norm(x) == 'self.calc_output()' for x in vals)
+        ck.ob(R7, f"{eb.fid} :: stored value", ok,
+              "the stored output is calc_output()'s result" if ok else
+              "eval_block stores something else than the result of self.calc_output()", eb, ws[0].ast)
+        rets = return_nodes(ge)
+        tr = [r for r in rets if is_const(r.ast.value, True)]
+        fa = [r for r in rets if is_const(r.ast.value, False)]
+        ok = bool(tr) and bool(fa) and len(tr) + len(fa) == len(rets) and \
+            all(ge.dominates(ws[0], r) for r in tr) and \
+            all(r.id not in ge.reachable_from(ws[0]) for r in fa) and \
+            must_pass(ge, ws[0], tr, [ge.exit]) is None
+        if not ok and len(rets) >= 1 and not tr:
+            # flag style: `return <the very test that guards the write>` (true on the storing path,
+            # false on every path that avoids the write)
+            wfacts = {canon_fact(e_, p_) for e_, p_ in ge.guards(ws[0])}
+            flag_rets = [r for r in rets if r.ast.value is not None and canon_fact(r.ast.value, True) in wfacts]
+            other = [r for r in rets if r not in flag_rets]
+            br = [n for n in ge.nodes if n.kind == 'branch' and flag_rets and any(
+                canon_fact(e_, p_) == canon_fact(flag_rets[0].ast.value, True)
+                for e_, p_ in decompose(n.test.ast, n.polarity))]
+            ok = bool(flag_rets) and all(is_const(r.ast.value, False) and r.id not in ge.reachable_from(ws[0])
+                                         for r in other) and bool(br) and \
+                ge.path_avoiding(br[0], [ge.exit], avoid=ws) is None
+        ck.ob(R7, f"{eb.fid} :: change indicator", ok,
+              "returns True exactly on the path that stored a new value" if ok else
+              "the change indicator does not correspond to 'a new value was stored'", eb, eb.node)
+        prev_defs = nodes_where(ge, lambda n: isinstance(n.ast, ast.Assign) and
+                                norm(n.ast.value) == 'self._output')
+        pname = norm(prev_defs[0].ast.targets[0]) if prev_defs else None
+        vname = v.id if isinstance(v, ast.Name) else None
+        eq_t = {canon_fact(ast.parse(t_, mode='eval').body, True) for t_ in
+                (f'{pname} == {vname}', f'{vname} == {pname}')} if pname and vname else set()
+        eqT_nodes = [n for n in ge.nodes if n.kind == 'branch' and any(
+            canon_fact(e_, p_) in eq_t for e_, p_ in decompose(n.test.ast, n.polarity))]
+        ok = bool(pname) and bool(vname) and bool(eqT_nodes) and \
+            ge.path_avoiding(ge.entry, [ge.exit], avoid=ws + eqT_nodes) is None and \
+            (ge.has_guard(ws[0], f'{pname} == {vname}', False) or
+             ge.has_guard(ws[0], f'{vname} == {pname}', False))
+        ok = ok and all(ge.dominates(p, ws[0]) and p.id not in ge.reachable_from(ws[0]) for p in prev_defs)
+        ck.ob(R7, f"{eb.fid} :: skip only for equal values", bool(ok),
+              "the no-change exit is taken exactly when old == new (equality, not identity)" if ok else
+              "the no-change test is not an equality comparison of the previous and the new value",
+              eb, fa[0].ast if fa else eb.node)
+        undef = nodes_where(ge, lambda n: isinstance(n.ast, ast.Raise) and
+                            any('UNDEF' in t and p for t, p in ge.guard_texts(n)), kinds=('stmt',))
+        ck.ob(R7, f"{eb.fid} :: UNDEF refused", bool(undef), "an UNDEF result raises", eb, eb.node)
+        from rules.shared import undef_refused_everywhere
+        undef_refused_everywhere(ck, R7)
+
+    with ck.section('R01.8'):
+        # ------------------------------------------------------------------ R01.8
+        wiring_rules(ck, R8)
+
+    with ck.section('R01.9'):
+        # ------------------------------------------------------------------ R01.9
+        for q in ('blocklib.cblocks:Not', 'blocklib.cblocks:Compare', 'blocklib.cblocks:Override'):
+            ci = prog.cls(q)
+            st = ci.methods.get('start')
+            co = ci.methods.get('calc_output')
+            ck.need(R9, st is not None and co is not None, f"{q}: start/calc_output not found")
+            sig = None
+            for c in [x for x in own_nodes(st.node) if isinstance(x, ast.Call)]:
+                if call_name(c) == 'check_signature' and c.args and isinstance(c.args[0], ast.Dict):
+                    try:
+                        sig = ast.literal_eval(c.args[0])
+                    except ValueError:
+                        sig = None
+            ck.need(R9, sig is not None, f"{q}.start: check_signature literal not found")
+            reads = {}
+            for x in own_nodes(co.node):
+                if isinstance(x, ast.Subscript) and norm(x.value) == 'self._in' and \
+                        isinstance(x.slice, ast.Constant):
+                    reads.setdefault(x.slice.value, set())
+                if isinstance(x, ast.Attribute) and norm(x.value) == 'self._in':
+                    reads.setdefault(x.attr, set())
+            for x in own_nodes(co.node):
+                if isinstance(x, ast.Subscript) and isinstance(x.value, ast.Subscript) and \
+                        norm(x.value.value) == 'self._in' and isinstance(x.value.slice, ast.Constant):
+                    reads[x.value.slice.value].add('indexed')
+            ok = set(reads) == set(sig)
+            shape = all((('indexed' in reads.get(k, ())) == (sig[k] is not None)) for k in sig)
+            ck.ob(R9, f"{q} :: declared vs read inputs", ok and shape,
+                  f"declared {sig}; calc_output reads {sorted(reads)}" if ok and shape else
+                  f"declared signature {sig} but calc_output reads "
+                  f"{ {k: sorted(v) for k, v in reads.items()} } (names or single/group shape differ)",
+                  co, co.node)
+        ig = prog.func('block:CBlock.InputGetter.__getitem__')
+        gi = ck.cfg(ig.fid, 'M0')
+        rets = return_nodes(gi)
+        single = [r for r in rets if gi.has_guard(r, 'isinstance(iblk, tuple)', False)]
+        group = [r for r in rets if gi.has_guard(r, 'isinstance(iblk, tuple)', True)]
+        def _group_ok(v):
+            if not (isinstance(v, ast.Call) and call_name(v) == 'tuple' and len(v.args) == 1):
+                return False
+            ge_ = v.args[0]
+            if not isinstance(ge_, (ast.GeneratorExp, ast.ListComp)) or len(ge_.generators) != 1:
+                return False
+            gen0 = ge_.generators[0]
+            return norm(gen0.iter) == 'iblk' and not gen0.ifs and \
+                norm(ge_.elt) == f"{norm(gen0.target)}.output"
+        ok = len(single) == 1 and len(group) == 1 and norm(single[0].ast.value) == 'iblk.output' and \
+            _group_ok(group[0].ast.value)
+        src = nodes_where(gi, lambda n: isinstance(n.ast, ast.Assign) and norm(n.ast.targets[0]) == 'iblk')
+        ok = ok and len(src) == 1 and norm(src[0].ast.value) == f"self._blk.inputs[{ig.node.args.args[1].arg}]"
+        ck.ob(R9, ig.fid, ok, "returns .output of the stored block, or the tuple of .output values of "
+              "a group, looked up by the requested name" if ok else
+              "InputGetter does not return the current outputs of the connected blocks", ig, ig.node)
+        ga = prog.func('block:CBlock.InputGetter.__getattr__')
+        ok = any(isinstance(x, ast.Subscript) and norm(x) == f"self[{ga.node.args.args[1].arg}]"
+                 for x in own_nodes(ga.node))
+        ck.ob(R9, ga.fid, ok, "attribute access delegates to item access", ga, ga.node)
+
+    with ck.section('R01.10'):
+        # ------------------------------------------------------------------ R01.10
+        nt = prog.func('blocklib.cblocks:Not.calc_output')
+        for val in (0, 1):
+            got = Interp(R10, {"self._in['_'][0]": val, "self._in._[0]": val}, 'truthiness').run(nt.node.body)
+            ck.abstract_cases += 1
+            ck.ob(R10, f"{nt.fid} :: input {'truthy' if val else 'falsy'}", got is (not val),
+                  f"Not({'truthy' if val else 'falsy'}) = {got}", nt, nt.node)
+        import itertools
+        # And / Or: the function handed to FuncBlock is resolved (constructor chain, class attributes,
+        # module functions, lambdas) and applied by the mini evaluator to every truthiness vector of
+        # 0..4 inputs with two different truthy representatives
+        for q, fname, spec in (('blocklib.cblocks:And', 'all', lambda vec: all(vec)),
+                               ('blocklib.cblocks:Or', 'any', lambda vec: any(vec))):
+            fn, unpack_false, desc, afi, anode = _gate_func(ck, R10, q)
+            bad = None
+            n = 0
+            for arity in range(0, 5):
+                for vec in itertools.product((0, 1, 2), repeat=arity):
+                    got = _apply_gate(R10, fn, vec)
+                    n += 1
+                    ck.abstract_cases += 1
+                    if got is not bool(spec(vec)) and bad is None:
+                        bad = (vec, got)
+            ok = bad is None and unpack_false
+            ck.ob(R10, f"{q}", ok, f"{q.split(':')[1]} = {fname}() over the whole input group on all {n} "
+                  f"truthiness vectors of 0..4 inputs ({desc})" if ok else
+                  (f"{q.split(':')[1]}{bad[0]} yields {bad[1]}; documented: {fname}() of the inputs' truth values"
+                   if bad else f"{q.split(':')[1]} does not pass unpack=False ({desc})"), afi, anode)
+        # Compare: threshold selection on the truthiness domain of the previous output
+        from sa.absval import UNDEF as _U
+        cmpf = prog.func('blocklib.cblocks:Compare.calc_output')
+        body = [st for st in cmpf.node.body if not (isinstance(st, ast.Expr) and isinstance(st.value, ast.Constant))]
+        ret = body[-1] if body and isinstance(body[-1], ast.Return) else None
+        ck.need(R11, ret is not None and isinstance(ret.value, ast.Compare) and len(ret.value.ops) == 1,
+                "Compare.calc_output: final `return <input> <op> <threshold>` not recognised")
+        thr_name = norm(ret.value.comparators[0])
+        LOW, HIGH, MID = object(), object(), object()
+        for prev, want, label in ((_U, MID, 'UNDEF (start-up)'), (0, HIGH, 'False'), (1, LOW, 'True')):
+            env = {'self._output': prev, 'block.UNDEF': _U, 'UNDEF': _U, 'self._low': LOW, 'self._high': HIGH,
+                   '(self._low + self._high) / 2': MID, '(self._high + self._low) / 2': MID}
+            it = Interp(R11, env, 'truthiness')
+            it.run(body[:-1])
+            got = it.env.get(thr_name)
+            ck.abstract_cases += 1
+            names = {id(LOW): 'low', id(HIGH): 'high', id(MID): '(low+high)/2'}
+            ck.ob(R11, f"{cmpf.fid} :: previous output {label}", got is want,
+                  f"threshold = {names.get(id(got), got)}; documented: {names[id(want)]} (hysteresis: a "
+                  f"False output needs the input to reach `high`, a True output stays until it drops "
+                  f"below `low`)", cmpf, cmpf.node)
+        okc = isinstance(ret.value.ops[0], ast.GtE) and norm(ret.value.left) in ("self._in['_'][0]", "self._in._[0]")
+        ck.ob(R11, f"{cmpf.fid} :: comparison", okc,
+              "output = input >= threshold (True when the input reaches the threshold)" if okc else
+              f"`{norm(ret.value)}` is not `input >= threshold`", cmpf, ret)
+        cin = prog.func('blocklib.cblocks:Compare.__init__')
+        gci = ck.cfg(cin.fid, 'M0')
+        okr = any(isinstance(n.ast, ast.Raise) and (gci.has_guard(n, 'high < low', True) or
+                                                    gci.has_guard(n, 'low > high', True))
+                  for n in gci.nodes if n.kind == 'stmt') and \
+            any(isinstance(n.ast, ast.Assign) and norm(n.ast.targets[0]) == 'self._low' and norm(n.ast.value) == 'low'
+                for n in gci.nodes if n.kind == 'stmt') and \
+            any(isinstance(n.ast, ast.Assign) and norm(n.ast.targets[0]) == 'self._high' and norm(n.ast.value) == 'high'
+                for n in gci.nodes if n.kind == 'stmt')
+        ck.ob(R11, cin.fid, okr, "low/high stored as given; high < low refused" if okr else
+              "Compare.__init__ swaps or does not validate its thresholds", cin, cin.node)
+
+        # Override: decided on the equality pattern of (override, null_value) -- 2 cases, complete
+        from sa.dictval import DictInterp
+        ovf = prog.func('blocklib.cblocks:Override.calc_output')
+        INP, OVR, NUL = 'INPUT', 'OVERRIDE', 'NULL'
+        for same in (True, False):
+            env = {'self._in.override': NUL if same else OVR, "self._in['override']": NUL if same else OVR,
+                   'self._in.input': INP, "self._in['input']": INP, 'self._null': NUL}
+            got = DictInterp(R12, env).run(ovf.node.body)
+            ck.abstract_cases += 1
+            want = INP if same else OVR
+            ck.ob(R12, f"{ovf.fid} :: override {'==' if same else '!='} null_value", got == want,
+                  f"documented: {'pass the input' if same else 'the override value'}; code yields {got}",
+                  ovf, ovf.node)
+        # Xor: parity of the number of true inputs, evaluated for every truthiness vector of 0..4 inputs
+        fn, unpack_false, desc, xin, fnode = _gate_func(ck, R12, 'blocklib.cblocks:Xor')
+        ck.need(R12, unpack_false, "Xor: the gate function is not applied to the input group with "
+                "unpack=False (unrecognised idiom)")
+        bad = None
+        n = 0
+        for arity in range(0, 5):
+            # 0 = a false input; 1 and 2 = two different true inputs (the result may depend on the
+            # truth of the inputs only, not on their numeric value: outputs of Counters are inputs too)
+            for vec in itertools.product((0, 1, 2), repeat=arity):
+                got = _apply_gate(R12, fn, vec)
+                n += 1
+                ck.abstract_cases += 1
+                if got is not (sum(1 for x in vec if x) % 2 == 1) and bad is None:
+                    bad = (vec, got)
+        ck.ob(R12, f"blocklib.cblocks:Xor.__init__ :: parity", bad is None,
+              f"Xor = odd number of true inputs on all {n} truthiness vectors of 0..4 inputs (bounded "
+              f"arity, not a proof for every arity)" if bad is None else
+              f"Xor{bad[0]} yields {bad[1]}; documented: True iff an odd number of inputs is true",
+              xin, fnode)
+
+        fb = prog.func('blocklib.cblocks:FuncBlock.calc_output')
+        gb = ck.cfg(fb.fid, 'M0')
+        rets = return_nodes(gb)
+        un = [r for r in rets if gb.has_guard(r, 'self._unpack', True)]
+        pk = [r for r in rets if gb.has_guard(r, 'self._unpack', False)]
+        ok = len(un) == 1 and len(pk) == 1 and isinstance(un[0].ast.value, ast.Call) and \
+            isinstance(pk[0].ast.value, ast.Call) and \
+            any(isinstance(a, ast.Starred) for a in un[0].ast.value.args) and \
+            not any(isinstance(a, ast.Starred) for a in pk[0].ast.value.args) and \
+            norm(un[0].ast.value.func) == norm(pk[0].ast.value.func) == 'self._func'
+        ck.ob(R10, fb.fid, ok, "unpack=True passes the unnamed inputs as separate arguments, "
+              "unpack=False as one tuple" if ok else
+              "FuncBlock.calc_output does not switch between *args and args on self._unpack", fb, fb.node)
+
+
+def _apply_gate(rule, fn, vec):
+    """Apply the interpreted gate function to one input vector -> bool result, or a text naming
+    the fault (a gate must not fail on truthy / falsy inputs)."""
+    from sa.minieval import _Fault, _Raised
+    try:
+        got = fn(tuple(vec))
+    except (_Fault, _Raised) as exc:
+        return f"<raises {exc.name}>"
+    return got
+
+
+def _gate_func(ck, rule, qual):
+    """Resolve the function a FuncBlock subclass hands to FuncBlock.__init__ (func=...) through its
+    constructor chain -> (callable over a tuple of inputs, unpack is False, description, FuncInfo,
+    anchor node).  Followed: `super().__init__(..., func=E, unpack=False, ...)` in the class or a
+    private base; E = builtin name, module function, lambda, or a class attribute read through
+    type(self) / self / self.__class__ (resolved in the MRO of the concrete class)."""
+    from sa.minieval import MiniEval
+    from sa.loader import ClassInfo
+    prog = ck.prog
+    ci = prog.cls(qual)
+    ini = prog.resolve_method(ci, '__init__')
+    ck.need(rule, ini is not None and ini.cls is not None and ini.cls.name != 'FuncBlock' and
+            ini.cls.is_subclass_of('FuncBlock'),
+            f"{qual}: no constructor between the class and FuncBlock hands over the function "
+            "(unrecognised idiom)")
+    sup = [c for c in own_nodes(ini.node) if is_super_call(c, '__init__')]
+    ck.need(rule, len(sup) == 1, f"{ini.fid}: exactly one super().__init__ call expected")
+    f = kw(sup[0], 'func')
+    up = kw(sup[0], 'unpack')
+    ck.need(rule, f is not None, f"{ini.fid}: super().__init__ is not given func= (unrecognised idiom)")
+
+    def module_resolver(mod):
+        def resolve(text):
+            if not text.isidentifier():
+                return None
+            b = prog.lookup(mod, text)
+            if b is not None and b[0] == 'func':
+                return b[1].node
+            return None
+        return resolve
+
+    def to_callable(expr, mod, depth=0):
+        ck.need(rule, depth < 4, f"{qual}: func= indirection too deep")
+        t = norm(expr)
+        for pre in ('type(self).', 'self.__class__.', 'self.', 'cls.'):
+            if t.startswith(pre) and t[len(pre):].isidentifier():
+                name = t[len(pre):]
+                for c in ci.mro:
+                    if isinstance(c, ClassInfo) and name in c.values:
+                        return to_callable(c.values[name], c.module, depth + 1)
+                    if isinstance(c, ClassInfo) and name in c.methods:
+                        m = c.methods[name]
+                        static = any(norm(d) == 'staticmethod' for d in m.node.decorator_list)
+                        me = MiniEval(rule, {}, module_resolver(c.module))
+                        return me._closure(m.node.args, m.node.body, bound_method=not static), f"{c.name}.{name}"
+                ck.need(rule, False, f"{qual}: attribute {name} not found in the class hierarchy")
+        me = MiniEval(rule, {}, module_resolver(mod))
+        if isinstance(expr, ast.Lambda):
+            return me.ev(expr), 'lambda'
+        if isinstance(expr, (ast.Name, ast.Attribute)):
+            fn_ = me._pure_callable(expr)
+            if fn_ is not None:
+                return fn_, t
+        ck.need(rule, False, f"{qual}: func={t[:60]} is neither a builtin, a module function, a lambda "
+                "nor a class attribute (unrecognised idiom)")
+
+    fn, what = to_callable(f, ini.module)
+    ck.need(rule, fn is not None, f"{qual}: func={norm(f)[:60]} has an unsupported signature")
+    return fn, is_const(up, False), f"func={what}, unpack={norm(up) if up is not None else None}", ini, f
+
+def _set_output_shape(ck, R6, so):
+    """Shape form of R01.6 for the layout of the pinned tree."""
+    prog = ck.prog
     gs = ck.cfg(so.fid, 'M0')
     ws = nodes_writing_attr(gs, '_output')
     ck.need(R6, len(ws) == 1, "SBlock.set_output: expected exactly one write of _output")
@@ -198,245 +529,3 @@ def run(ck):
     ck.ob(R6, f"{so.fid} :: UNDEF refused", bool(undef) and
           all(gs.has_guard(w, f'{vparam} is UNDEF', False) for w in ws),
           "UNDEF is refused as an output value", so, so.node)
-    own(ck, R6, '_output', {
-        'block:Block.__init__': 'initial UNDEF', 'block:CBlock.eval_block': 'combinational result',
-        so.fid: 'the setter of sequential blocks', 'block:Const.__init__': 'Const is not a Block'})
-
-    # ------------------------------------------------------------------ R01.7
-    eb = prog.func('block:CBlock.eval_block')
-    ge = ck.cfg(eb.fid, 'M0')
-    ws = nodes_writing_attr(ge, '_output')
-    ck.need(R7, len(ws) == 1, "CBlock.eval_block: expected exactly one write of _output")
-    v = written_value(ws[0], '_output')
-    rd = ck.rdefs(eb.fid, 'M0')
-    vals = rd.value_exprs(ws[0], v.id) if isinstance(v, ast.Name) else [v]
-    ok = bool(vals) and all(not isinstance(x, str) and norm(x) == 'self.calc_output()' for x in vals)
-    ck.ob(R7, f"{eb.fid} :: stored value", ok,
-          "the stored output is calc_output()'s result" if ok else
-          "eval_block stores something else than the result of self.calc_output()", eb, ws[0].ast)
-    rets = return_nodes(ge)
-    tr = [r for r in rets if is_const(r.ast.value, True)]
-    fa = [r for r in rets if is_const(r.ast.value, False)]
-    ok = bool(tr) and bool(fa) and len(tr) + len(fa) == len(rets) and \
-        all(ge.dominates(ws[0], r) for r in tr) and \
-        all(r.id not in ge.reachable_from(ws[0]) for r in fa) and \
-        must_pass(ge, ws[0], tr, [ge.exit]) is None
-    if not ok and len(rets) >= 1 and not tr:
-        # flag style: `return <the very test that guards the write>` (true on the storing path,
-        # false on every path that avoids the write)
-        wfacts = {canon_fact(e_, p_) for e_, p_ in ge.guards(ws[0])}
-        flag_rets = [r for r in rets if r.ast.value is not None and canon_fact(r.ast.value, True) in wfacts]
-        other = [r for r in rets if r not in flag_rets]
-        br = [n for n in ge.nodes if n.kind == 'branch' and flag_rets and any(
-            canon_fact(e_, p_) == canon_fact(flag_rets[0].ast.value, True)
-            for e_, p_ in decompose(n.test.ast, n.polarity))]
-        ok = bool(flag_rets) and all(is_const(r.ast.value, False) and r.id not in ge.reachable_from(ws[0])
-                                     for r in other) and bool(br) and \
-            ge.path_avoiding(br[0], [ge.exit], avoid=ws) is None
-    ck.ob(R7, f"{eb.fid} :: change indicator", ok,
-          "returns True exactly on the path that stored a new value" if ok else
-          "the change indicator does not correspond to 'a new value was stored'", eb, eb.node)
-    prev_defs = nodes_where(ge, lambda n: isinstance(n.ast, ast.Assign) and
-                            norm(n.ast.value) == 'self._output')
-    pname = norm(prev_defs[0].ast.targets[0]) if prev_defs else None
-    vname = v.id if isinstance(v, ast.Name) else None
-    eq_t = {canon_fact(ast.parse(t_, mode='eval').body, True) for t_ in
-            (f'{pname} == {vname}', f'{vname} == {pname}')} if pname and vname else set()
-    eqT_nodes = [n for n in ge.nodes if n.kind == 'branch' and any(
-        canon_fact(e_, p_) in eq_t for e_, p_ in decompose(n.test.ast, n.polarity))]
-    ok = bool(pname) and bool(vname) and bool(eqT_nodes) and \
-        ge.path_avoiding(ge.entry, [ge.exit], avoid=ws + eqT_nodes) is None and \
-        (ge.has_guard(ws[0], f'{pname} == {vname}', False) or
-         ge.has_guard(ws[0], f'{vname} == {pname}', False))
-    ok = ok and all(ge.dominates(p, ws[0]) and p.id not in ge.reachable_from(ws[0]) for p in prev_defs)
-    ck.ob(R7, f"{eb.fid} :: skip only for equal values", bool(ok),
-          "the no-change exit is taken exactly when old == new (equality, not identity)" if ok else
-          "the no-change test is not an equality comparison of the previous and the new value",
-          eb, fa[0].ast if fa else eb.node)
-    undef = nodes_where(ge, lambda n: isinstance(n.ast, ast.Raise) and
-                        any('UNDEF' in t and p for t, p in ge.guard_texts(n)), kinds=('stmt',))
-    ck.ob(R7, f"{eb.fid} :: UNDEF refused", bool(undef), "an UNDEF result raises", eb, eb.node)
-    from rules.shared import undef_refused_everywhere
-    undef_refused_everywhere(ck, R7)
-
-    # ------------------------------------------------------------------ R01.8
-    wiring_rules(ck, R8)
-
-    # ------------------------------------------------------------------ R01.9
-    for q in ('blocklib.cblocks:Not', 'blocklib.cblocks:Compare', 'blocklib.cblocks:Override'):
-        ci = prog.cls(q)
-        st = ci.methods.get('start')
-        co = ci.methods.get('calc_output')
-        ck.need(R9, st is not None and co is not None, f"{q}: start/calc_output not found")
-        sig = None
-        for c in [x for x in own_nodes(st.node) if isinstance(x, ast.Call)]:
-            if call_name(c) == 'check_signature' and c.args and isinstance(c.args[0], ast.Dict):
-                try:
-                    sig = ast.literal_eval(c.args[0])
-                except ValueError:
-                    sig = None
-        ck.need(R9, sig is not None, f"{q}.start: check_signature literal not found")
-        reads = {}
-        for x in own_nodes(co.node):
-            if isinstance(x, ast.Subscript) and norm(x.value) == 'self._in' and \
-                    isinstance(x.slice, ast.Constant):
-                reads.setdefault(x.slice.value, set())
-            if isinstance(x, ast.Attribute) and norm(x.value) == 'self._in':
-                reads.setdefault(x.attr, set())
-        for x in own_nodes(co.node):
-            if isinstance(x, ast.Subscript) and isinstance(x.value, ast.Subscript) and \
-                    norm(x.value.value) == 'self._in' and isinstance(x.value.slice, ast.Constant):
-                reads[x.value.slice.value].add('indexed')
-        ok = set(reads) == set(sig)
-        shape = all((('indexed' in reads.get(k, ())) == (sig[k] is not None)) for k in sig)
-        ck.ob(R9, f"{q} :: declared vs read inputs", ok and shape,
-              f"declared {sig}; calc_output reads {sorted(reads)}" if ok and shape else
-              f"declared signature {sig} but calc_output reads "
-              f"{ {k: sorted(v) for k, v in reads.items()} } (names or single/group shape differ)",
-              co, co.node)
-    ig = prog.func('block:CBlock.InputGetter.__getitem__')
-    gi = ck.cfg(ig.fid, 'M0')
-    rets = return_nodes(gi)
-    single = [r for r in rets if gi.has_guard(r, 'isinstance(iblk, tuple)', False)]
-    group = [r for r in rets if gi.has_guard(r, 'isinstance(iblk, tuple)', True)]
-    def _group_ok(v):
-        if not (isinstance(v, ast.Call) and call_name(v) == 'tuple' and len(v.args) == 1):
-            return False
-        ge_ = v.args[0]
-        if not isinstance(ge_, (ast.GeneratorExp, ast.ListComp)) or len(ge_.generators) != 1:
-            return False
-        gen0 = ge_.generators[0]
-        return norm(gen0.iter) == 'iblk' and not gen0.ifs and \
-            norm(ge_.elt) == f"{norm(gen0.target)}.output"
-    ok = len(single) == 1 and len(group) == 1 and norm(single[0].ast.value) == 'iblk.output' and \
-        _group_ok(group[0].ast.value)
-    src = nodes_where(gi, lambda n: isinstance(n.ast, ast.Assign) and norm(n.ast.targets[0]) == 'iblk')
-    ok = ok and len(src) == 1 and norm(src[0].ast.value) == f"self._blk.inputs[{ig.node.args.args[1].arg}]"
-    ck.ob(R9, ig.fid, ok, "returns .output of the stored block, or the tuple of .output values of "
-          "a group, looked up by the requested name" if ok else
-          "InputGetter does not return the current outputs of the connected blocks", ig, ig.node)
-    ga = prog.func('block:CBlock.InputGetter.__getattr__')
-    ok = any(isinstance(x, ast.Subscript) and norm(x) == f"self[{ga.node.args.args[1].arg}]"
-             for x in own_nodes(ga.node))
-    ck.ob(R9, ga.fid, ok, "attribute access delegates to item access", ga, ga.node)
-
-    # ------------------------------------------------------------------ R01.10
-    nt = prog.func('blocklib.cblocks:Not.calc_output')
-    for val in (0, 1):
-        got = Interp(R10, {"self._in['_'][0]": val, "self._in._[0]": val}, 'truthiness').run(nt.node.body)
-        ck.abstract_cases += 1
-        ck.ob(R10, f"{nt.fid} :: input {'truthy' if val else 'falsy'}", got is (not val),
-              f"Not({'truthy' if val else 'falsy'}) = {got}", nt, nt.node)
-    for q, fname in (('blocklib.cblocks:And', 'all'), ('blocklib.cblocks:Or', 'any')):
-        ci = prog.cls(q)
-        ini = ci.methods.get('__init__')
-        ck.need(R10, ini is not None, f"{q}.__init__ not found")
-        sup = [c for c in own_nodes(ini.node) if is_super_call(c, '__init__')]
-        ok = False
-        why = "no super().__init__ call"
-        if sup:
-            f = kw(sup[0], 'func')
-            up = kw(sup[0], 'unpack')
-            if isinstance(f, ast.Name):
-                fn_ok = f.id == fname
-            elif isinstance(f, ast.Lambda) and isinstance(f.body, ast.Call) and \
-                    isinstance(f.body.func, ast.Name) and len(f.args.args) == 1 and \
-                    [norm(a) for a in f.body.args] == [f.args.args[0].arg]:
-                fn_ok = f.body.func.id == fname
-            else:
-                fn_ok = None
-            ck.need(R10, fn_ok is not None, f"{q}: func= is neither a builtin name nor a simple "
-                    "lambda over the group (unrecognised idiom)")
-            ok = fn_ok and is_const(up, False)
-            why = f"func={norm(f)}, unpack={norm(up) if up is not None else None}"
-        ck.ob(R10, f"{q}", ok, f"{ci.name} = {fname}() over the whole input group ({why})" if ok
-              else f"{ci.name} is not {fname}() over the unnamed group: {why}", ini, ini.node)
-    # Compare: threshold selection on the truthiness domain of the previous output
-    from sa.absval import UNDEF as _U
-    cmpf = prog.func('blocklib.cblocks:Compare.calc_output')
-    body = [st for st in cmpf.node.body if not (isinstance(st, ast.Expr) and isinstance(st.value, ast.Constant))]
-    ret = body[-1] if body and isinstance(body[-1], ast.Return) else None
-    ck.need(R11, ret is not None and isinstance(ret.value, ast.Compare) and len(ret.value.ops) == 1,
-            "Compare.calc_output: final `return <input> <op> <threshold>` not recognised")
-    thr_name = norm(ret.value.comparators[0])
-    LOW, HIGH, MID = object(), object(), object()
-    for prev, want, label in ((_U, MID, 'UNDEF (start-up)'), (0, HIGH, 'False'), (1, LOW, 'True')):
-        env = {'self._output': prev, 'block.UNDEF': _U, 'UNDEF': _U, 'self._low': LOW, 'self._high': HIGH,
-               '(self._low + self._high) / 2': MID, '(self._high + self._low) / 2': MID}
-        it = Interp(R11, env, 'truthiness')
-        it.run(body[:-1])
-        got = it.env.get(thr_name)
-        ck.abstract_cases += 1
-        names = {id(LOW): 'low', id(HIGH): 'high', id(MID): '(low+high)/2'}
-        ck.ob(R11, f"{cmpf.fid} :: previous output {label}", got is want,
-              f"threshold = {names.get(id(got), got)}; documented: {names[id(want)]} (hysteresis: a "
-              f"False output needs the input to reach `high`, a True output stays until it drops "
-              f"below `low`)", cmpf, cmpf.node)
-    okc = isinstance(ret.value.ops[0], ast.GtE) and norm(ret.value.left) in ("self._in['_'][0]", "self._in._[0]")
-    ck.ob(R11, f"{cmpf.fid} :: comparison", okc,
-          "output = input >= threshold (True when the input reaches the threshold)" if okc else
-          f"`{norm(ret.value)}` is not `input >= threshold`", cmpf, ret)
-    cin = prog.func('blocklib.cblocks:Compare.__init__')
-    gci = ck.cfg(cin.fid, 'M0')
-    okr = any(isinstance(n.ast, ast.Raise) and (gci.has_guard(n, 'high < low', True) or
-                                                gci.has_guard(n, 'low > high', True))
-              for n in gci.nodes if n.kind == 'stmt') and \
-        any(isinstance(n.ast, ast.Assign) and norm(n.ast.targets[0]) == 'self._low' and norm(n.ast.value) == 'low'
-            for n in gci.nodes if n.kind == 'stmt') and \
-        any(isinstance(n.ast, ast.Assign) and norm(n.ast.targets[0]) == 'self._high' and norm(n.ast.value) == 'high'
-            for n in gci.nodes if n.kind == 'stmt')
-    ck.ob(R11, cin.fid, okr, "low/high stored as given; high < low refused" if okr else
-          "Compare.__init__ swaps or does not validate its thresholds", cin, cin.node)
-
-    # Override: decided on the equality pattern of (override, null_value) -- 2 cases, complete
-    from sa.dictval import DictInterp
-    ovf = prog.func('blocklib.cblocks:Override.calc_output')
-    INP, OVR, NUL = 'INPUT', 'OVERRIDE', 'NULL'
-    for same in (True, False):
-        env = {'self._in.override': NUL if same else OVR, "self._in['override']": NUL if same else OVR,
-               'self._in.input': INP, "self._in['input']": INP, 'self._null': NUL}
-        got = DictInterp(R12, env).run(ovf.node.body)
-        ck.abstract_cases += 1
-        want = INP if same else OVR
-        ck.ob(R12, f"{ovf.fid} :: override {'==' if same else '!='} null_value", got == want,
-              f"documented: {'pass the input' if same else 'the override value'}; code yields {got}",
-              ovf, ovf.node)
-    # Xor: parity of the number of true inputs, evaluated for every truthiness vector of 0..4 inputs
-    xin = prog.func('blocklib.cblocks:Xor.__init__')
-    sup = [c for c in own_nodes(xin.node) if is_super_call(c, '__init__')]
-    fnode = kw(sup[0], 'func') if sup else None
-    ck.need(R12, isinstance(fnode, ast.Lambda) and len(fnode.args.args) == 1 and
-            is_const(kw(sup[0], 'unpack'), False),
-            "Xor: func= is not a one-argument lambda over the input group with unpack=False "
-            "(unrecognised idiom)")
-    import itertools
-    bad = None
-    n = 0
-    for arity in range(0, 5):
-        # 0 = a false input; 1 and 2 = two different true inputs (the result may depend on the
-        # truth of the inputs only, not on their numeric value: outputs of Counters are inputs too)
-        for vec in itertools.product((0, 1, 2), repeat=arity):
-            got = DictInterp(R12, {fnode.args.args[0].arg: tuple(vec)}).ev(fnode.body)
-            n += 1
-            ck.abstract_cases += 1
-            if got is not (sum(1 for x in vec if x) % 2 == 1) and bad is None:
-                bad = (vec, got)
-    ck.ob(R12, f"{xin.fid} :: parity", bad is None,
-          f"Xor = odd number of true inputs on all {n} truthiness vectors of 0..4 inputs (bounded "
-          f"arity, not a proof for every arity)" if bad is None else
-          f"Xor{bad[0]} yields {bad[1]}; documented: True iff an odd number of inputs is true",
-          xin, fnode)
-
-    fb = prog.func('blocklib.cblocks:FuncBlock.calc_output')
-    gb = ck.cfg(fb.fid, 'M0')
-    rets = return_nodes(gb)
-    un = [r for r in rets if gb.has_guard(r, 'self._unpack', True)]
-    pk = [r for r in rets if gb.has_guard(r, 'self._unpack', False)]
-    ok = len(un) == 1 and len(pk) == 1 and isinstance(un[0].ast.value, ast.Call) and \
-        isinstance(pk[0].ast.value, ast.Call) and \
-        any(isinstance(a, ast.Starred) for a in un[0].ast.value.args) and \
-        not any(isinstance(a, ast.Starred) for a in pk[0].ast.value.args) and \
-        norm(un[0].ast.value.func) == norm(pk[0].ast.value.func) == 'self._func'
-    ck.ob(R10, fb.fid, ok, "unpack=True passes the unnamed inputs as separate arguments, "
-          "unpack=False as one tuple" if ok else
-          "FuncBlock.calc_output does not switch between *args and args on self._unpack", fb, fb.node)
